@@ -2989,6 +2989,63 @@ Proof.
   change (iter_file (S (S k)) n) with (iter_file (S k) (adopted (ref n))). apply IH.
 Qed.
 
+(* ---- re-running after a file round trip ---- *)
+Lemma vals_in_put fi fo gi go K : vals_in (put fi fo gi go K) = vals_in K.
+Proof.
+  unfold vals_in, put. induction K as [|k r IH]; [reflexivity|]. cbn [map flat_map]. rewrite IH. f_equal.
+  unfold putk. cbn [nins nlab]. rewrite map_map. reflexivity.
+Qed.
+Lemma vals_out_put fi fo gi go K : vals_out (put fi fo gi go K) = vals_out K.
+Proof.
+  unfold vals_out, put. induction K as [|k r IH]; [reflexivity|]. cbn [map flat_map]. rewrite IH. f_equal.
+  unfold putk. cbn [nouts nlab]. rewrite map_map. reflexivity.
+Qed.
+Lemma rcvd_put fi fo gi go K : rcvd_of (put fi fo gi go K) = rcvd_of K.
+Proof.
+  unfold rcvd_of, put. induction K as [|k r IH]; [reflexivity|]. cbn [map flat_map]. rewrite IH. f_equal.
+  unfold putk. cbn [nsin nlab]. rewrite map_map. reflexivity.
+Qed.
+Lemma shape_put fi fo gi go K :
+  map (fun k => (nlab k, map dlab (nins k))) (put fi fo gi go K) = map (fun k => (nlab k, map dlab (nins k))) K.
+Proof. unfold put. rewrite map_map. apply map_ext. intros k. unfold putk. cbn [nlab nins]. rewrite map_map. reflexivity. Qed.
+Lemma root_ready_relevel' K : NoDup (keys (din K)) -> root_ready (relevel K) = root_ready K.
+Proof.
+  intros Hn. unfold root_ready, relevel, put. rewrite forallb_map. apply forallb_ext_in. intros k Hk.
+  unfold putk. cbn [nins]. rewrite forallb_map. apply forallb_ext_in. intros c Hc.
+  cbn [set_dcon dcon dval].
+  assert (E : look (din K) (nlab k, dlab c) = dcon c).
+  { apply look_In; [exact Hn|]. unfold din. apply in_flat_map. exists k. split; [exact Hk|].
+    apply in_map_iff. exists c. auto. }
+  rewrite E. reflexivity.
+Qed.
+
+Theorem exec_adopted fuel m :
+  wfb m = true -> sig_canon_level (nkids m) = true -> exec fuel (adopted m) = exec fuel m.
+Proof.
+  intros Hw Hc. destruct (wfb_parts _ Hw) as [_ [Lk _]]. destruct (level_keys _ Lk) as [Ndi [Ndo [Nsi Nso]]].
+  unfold exec, adopted. cbn [nkids nstart].
+  rewrite (root_ready_relevel' _ Ndi). destruct (root_ready (nkids m)); [|reflexivity].
+  assert (E1 : vals_in (relevel (nkids m)) = vals_in (nkids m)) by apply vals_in_put.
+  assert (E2 : vals_out (relevel (nkids m)) = vals_out (nkids m)) by apply vals_out_put.
+  assert (E3 : rcvd_of (relevel (nkids m)) = rcvd_of (nkids m)) by apply rcvd_put.
+  assert (EW : wiring_of (relevel (nkids m)) =
+               mkW (din (nkids m)) (soutv (nkids m)) (refill (fun i => rev (look (sinv (nkids m)) i)) (sinv (nkids m)))
+                   (map (fun k => (nlab k, map dlab (nins k))) (nkids m))).
+  { unfold wiring_of, relevel. rewrite shape_put, din_put, soutv_put, sinv_put.
+    rewrite (@refill_look _ Ndi). rewrite (@canon_sig_eq _ Nso Hc). reflexivity. }
+  rewrite E1, E2, E3, EW. unfold wiring_of.
+  assert (Hacc : acc_eq (mkW (din (nkids m)) (soutv (nkids m)) (refill (fun i => rev (look (sinv (nkids m)) i)) (sinv (nkids m)))
+                             (map (fun k => (nlab k, map dlab (nins k))) (nkids m)))
+                        (mkW (din (nkids m)) (soutv (nkids m)) (sinv (nkids m))
+                             (map (fun k => (nlab k, map dlab (nins k))) (nkids m)))).
+  { intros r rc. cbn [w_sin]. rewrite look_refill. destruct (has_key (sinv (nkids m)) r) eqn:Hk.
+    - apply forallb_rev.
+    - rewrite look_nokey; [reflexivity|]. intros H. apply has_key_In in H. congruence. }
+  rewrite (@starts_inv _ _ _ _ (sinv (nkids m))).
+  destruct (starts _ _ (nstart m)) as [st|[|]]; try reflexivity.
+  apply (@loop_inv _ _ _ _ _ Hacc).
+Qed.
+
 (* =================================================================== 14. property-level statements for pickle *)
 Theorem roundtrip_pickle k c n :
   guards n -> cown c = true ->
@@ -3054,6 +3111,15 @@ Proof.
   intros Hg Hl. exists (iter_file (S k) n). split; [apply trips_file_exact; auto|].
   pose proof (same_iter_file k Hg) as S. split; [exact S|]. split; [apply iter_file_no_own|].
   apply same_eq in S. destruct S as [_ [_ [_ [_ [_ [_ [_ [_ [_ [_ [_ [D _]]]]]]]]]]]]. exact D.
+Qed.
+
+Theorem rerun_file c n fuel :
+  guards n -> cown c = true -> sig_canon_level (nkids n) = true ->
+  exists n', trips 1 BFile (c, n) = Ok (mkC None (root_det c) false, n') /\ exec fuel n' = exec fuel n.
+Proof.
+  intros Hg Hc Hsig. pose proof Hg as [Hw _]. exists (adopted (ref n)). split.
+  - cbn [trips trip]. rewrite trip_file_exact'; auto. unfold ghost_fails. rewrite Hc. reflexivity.
+  - rewrite exec_adopted; [apply exec_ref; auto | apply wfb_ref; exact Hw | apply sig_canon_ref; exact Hw].
 Qed.
 
 (* ---- witnesses ---------------------------------------------------------------------------------- *)
